@@ -22,7 +22,7 @@ def gen_hbank(rng, now, kind="mixed"):
     if toks[0] < ONE // 1000 or toks[0] > 100 * ONE:
         toks[0] = ONE
     toks[11] = rng.choice([0, 2, 6, 6, 6, 8, 9])   # decimals
-    toks[12] = rng.choice([0, 0, 0, 16, 4, 8])      # flags
+    toks[12] = rng.choice([0, 0, 0, 0, 16, 4, 8, 32, 48])      # flags
     toks[7] = now                                    # last_update
     toks[17] = rng.choice([1, 1, 1, 1, 1, 1, 1, 1, 1, 2, 0]) if kind == "mixed" else 1   # op state
     awi = Fraction(rng.choice([0, 30, 50, 65, 80, 90, 100]), 100)
